@@ -8,7 +8,7 @@ from . import manifests as M
 
 PID = 'C04'
 PINS = C.load_pins('C04')
-PROOF_FILES = ['Proofs/CstProofs.v', 'Proofs/JsonWalkProofs.v', 'Proofs/GoModProofs.v', 'Proofs/ParserPins.v', 'Props/C04.v']
+PROOF_FILES = ['Proofs/CstProofs.v', 'Proofs/JsonWalkProofs.v', 'Proofs/TomlWalkProofs.v', 'Proofs/GoModProofs.v', 'Proofs/ParserPins.v', 'Props/C04.v']
 
 # known-finding id per deviation class (KNOWN_FINDINGS.json)
 CLASS_FINDING = {
@@ -196,6 +196,30 @@ def run(tier, seed):
                           {'format': d.fmt, 'document': d.text, 'checked': outs[jidx[k]]['out']['pkgs']})
     rep.cov['streams']['json_reference'] = {'documents': len(jterms), 'equal': len(jterms) - len(jbad), 'inside_known_class': jcount.get(7, 0),
                                             'theorem_hypotheses_met': len(jterms) - jcount.get(7, 0) - jcount.get(4, 0) - jcount.get(5, 0) - jcount.get(6, 0)}
+    # reference reading in Coq (Spec only) for Cargo.toml: denotation of the real tree-sitter-toml CST
+    cterms, cidx = [], []
+    for i, (d, o) in enumerate(zip(docs, outs)):
+        if d.fmt == 'cargo_toml' and isinstance(o['out']['pkgs'], list) and o['out']['cst'] is not None:
+            impl = C.g_list([C.g_pair(C.g_bytes(p['name']), C.g_bytes(p['version'])) for p in o['out']['pkgs']])
+            exp = C.g_list([C.g_pair(C.g_bytes(x['name']), C.g_bytes(x['spec'])) for x in d.declared])
+            cterms.append(f"({C.g_bytes(d.text)}, {P.g_node(o['out']['cst'])}, {impl}, {exp})")
+            cidx.append(i)
+    cbad, cerrs = C.coq_eval_verdicts(PID, 'cargooracle', 'From Coq Require Import ZArith.\nFrom VL Require Import Lib.Bytes Lib.Cst Run.ManifestOracle.\n',
+                                      'bytes * node * list (bytes * bytes) * list (bytes * bytes)', cterms, 'cargo_oracle')
+    for e in cerrs:
+        rep.broke('reference reading (Spec.TomlDoc) evaluation failed', e)
+    ccount = collections.Counter(cbad.values())
+    for k, v in cbad.items():
+        d = docs[cidx[k]]
+        if v == 4:
+            rep.broke('a tree-sitter-toml tree of a generated manifest does not denote a TOML document (CST contract)', {'document': d.text})
+        elif v == 5:
+            rep.broke('reference reading of a generated Cargo.toml differs from the list it was rendered from', {'document': d.text, 'declared': [(x['name'], x['spec']) for x in d.declared]})
+        elif v == 6 and not any(what.startswith(d.fmt) for what, _, _ in rep.violations):
+            rep.violation('cargo_toml: the checked dependencies differ from the reference reading of the document (outside every known class)',
+                          {'format': d.fmt, 'document': d.text, 'checked': outs[cidx[k]]['out']['pkgs']})
+    rep.cov['streams']['cargo_reference'] = {'documents': len(cterms), 'equal': len(cterms) - len(cbad), 'inside_known_class': ccount.get(7, 0),
+                                             'theorem_hypotheses_met': len(cterms) - sum(ccount.get(x, 0) for x in (4, 5, 6, 7))}
     # go.mod: the generator's line list (reference grammar) against its rendering, the declared list and the implementation
     gterms, gidx = [], []
     for i, (d, o) in enumerate(zip(docs, outs)):
